@@ -314,8 +314,7 @@ def run_lists(ctx: Ctx) -> None:
     try:
         outs = ctx.driver.ask(reqs)
     except leanio.LeanError as e:
-        ctx.tie_fail(f"Lean driver failed: {e}", {"log": e.log})
-        return
+        raise RuntimeError(f"Lean driver failed (toolchain/harness problem, not a verdict): {e}\n{e.log[-1500:]}")
     for inp, impl, out in zip(inputs, impls, outs):
         ctx.compare("C06 finalizer list functions", impl, out[1] if out and out[0] == "ok" else out, inp)
 
@@ -832,8 +831,7 @@ def run_scenarios(ctx: Ctx, scenarios: list[dict], names: list[str | None]) -> N
     try:
         outs = ctx.driver.ask(reqs)
     except leanio.LeanError as e:
-        ctx.tie_fail(f"Lean driver failed: {e}", {"log": e.log})
-        return
+        raise RuntimeError(f"Lean driver failed (toolchain/harness problem, not a verdict): {e}\n{e.log[-1500:]}")
     for req, impl, out, wh in zip(reqs, impls, outs, where):
         if not out or out[0] != "ok":
             ctx.tie_fail("driver rejected a step", {"request": req, "answer": out, **wh})
